@@ -529,42 +529,49 @@ package otto
 //@   pure
 //@ func (*property).writeOn
 //@   props C07
+//@   inline
 //@   requires p != nil
 //@   ensures dig(p.mode, 2) == 1 && dig(p.mode, 1) == old(dig(p.mode, 1)) && dig(p.mode, 0) == old(dig(p.mode, 0)) && (old(wfMode(p.mode)) ==> wfMode(p.mode))
 //@   modifies property.mode
 //@   nothrow
 //@ func (*property).writeOff
 //@   props C07
+//@   inline
 //@   requires p != nil
 //@   ensures dig(p.mode, 2) == 0 && dig(p.mode, 1) == old(dig(p.mode, 1)) && dig(p.mode, 0) == old(dig(p.mode, 0)) && (old(wfMode(p.mode)) ==> wfMode(p.mode))
 //@   modifies property.mode
 //@   nothrow
 //@ func (*property).writeClear
 //@   props C07
+//@   inline
 //@   requires p != nil
 //@   ensures dig(p.mode, 2) == 2 && dig(p.mode, 1) == old(dig(p.mode, 1)) && dig(p.mode, 0) == old(dig(p.mode, 0)) && (old(wfMode(p.mode)) ==> wfMode(p.mode))
 //@   modifies property.mode
 //@   nothrow
 //@ func (*property).enumerateOn
 //@   props C07
+//@   inline
 //@   requires p != nil
 //@   ensures dig(p.mode, 1) == 1 && dig(p.mode, 2) == old(dig(p.mode, 2)) && dig(p.mode, 0) == old(dig(p.mode, 0)) && (old(wfMode(p.mode)) ==> wfMode(p.mode))
 //@   modifies property.mode
 //@   nothrow
 //@ func (*property).enumerateOff
 //@   props C07
+//@   inline
 //@   requires p != nil
 //@   ensures dig(p.mode, 1) == 0 && dig(p.mode, 2) == old(dig(p.mode, 2)) && dig(p.mode, 0) == old(dig(p.mode, 0)) && (old(wfMode(p.mode)) ==> wfMode(p.mode))
 //@   modifies property.mode
 //@   nothrow
 //@ func (*property).configureOn
 //@   props C07
+//@   inline
 //@   requires p != nil
 //@   ensures dig(p.mode, 0) == 1 && dig(p.mode, 2) == old(dig(p.mode, 2)) && dig(p.mode, 1) == old(dig(p.mode, 1)) && (old(wfMode(p.mode)) ==> wfMode(p.mode))
 //@   modifies property.mode
 //@   nothrow
 //@ func (*property).configureOff
 //@   props C07
+//@   inline
 //@   requires p != nil
 //@   ensures dig(p.mode, 0) == 0 && dig(p.mode, 2) == old(dig(p.mode, 2)) && dig(p.mode, 1) == old(dig(p.mode, 1)) && (old(wfMode(p.mode)) ==> wfMode(p.mode))
 //@   modifies property.mode
@@ -2464,3 +2471,33 @@ package otto
 //@   dyn_preserves runtime.scope, scope.outer
 //@   preserves runtime.scope, scope.outer
 //@   fresh_refs
+
+// ToPropertyDescriptor (8.10.5): a field of the descriptor object that is present sets the
+// corresponding attribute to ToBoolean of its value and leaves it unset otherwise; a present
+// get / set that is undefined is recorded as "present but undefined" (the sentinel), a
+// present callable one as that function, an absent one as absent.
+//@ func (Value).isCallable
+//@   inline
+//@ func toPropertyDescriptor
+//@   props C07
+//@   nosafety
+//@   requires rt != nil
+//@   calls (*object).hasProperty(_, "enumerable") as he
+//@   calls (*object).hasProperty(_, "configurable") as hc
+//@   calls (*object).hasProperty(_, "writable") as hw
+//@   calls (*object).hasProperty(_, "get") as hg
+//@   calls (*object).hasProperty(_, "set") as hs
+//@   calls (*object).get(_, "get") as vg when false
+//@   calls (*object).get(_, "set") as vs when false
+//@   ensures !he ==> dig(result.mode, 1) == 2
+//@   ensures !hc ==> dig(result.mode, 0) == 2
+//@   ensures !hw ==> dig(result.mode, 2) == 2
+//@   ensures he ==> dig(result.mode, 1) != 2
+//@   ensures hc ==> dig(result.mode, 0) != 2
+//@   ensures hw ==> dig(result.mode, 2) != 2
+//@   ensures hs && vs.kind == valueUndefined ==> is(result.value, propertyGetSet) && result.value.(propertyGetSet)[1] == &nilGetSetObject
+//@   ensures hg && vg.kind == valueUndefined ==> is(result.value, propertyGetSet) && result.value.(propertyGetSet)[0] == &nilGetSetObject
+//@   ensures hs && vs.kind != valueUndefined ==> is(result.value, propertyGetSet) && is(vs.value, *object) && result.value.(propertyGetSet)[1] == vs.value.(*object)
+//@   ensures hg && vg.kind != valueUndefined ==> is(result.value, propertyGetSet) && is(vg.value, *object) && result.value.(propertyGetSet)[0] == vg.value.(*object)
+//@   ensures !hs && hg ==> result.value.(propertyGetSet)[1] == nil
+//@   ensures !hg && hs ==> result.value.(propertyGetSet)[0] == nil
